@@ -24,6 +24,11 @@ Lemma fold_pair {A B} (f : A -> nat -> A) (g : B -> nat -> B) l a b :
   fold_left (fun p i => (f (fst p) i, g (snd p) i)) l (a, b) = (fold_left f l a, fold_left g l b).
 Proof. revert a b; induction l as [|i l IH]; intros a b; cbn [fold_left fst snd]; [reflexivity|apply IH]. Qed.
 
+Lemma fold_left_cons' {A B} (f : A -> B -> A) x l a : fold_left f (x :: l) a = fold_left f l (f a x).
+Proof. reflexivity. Qed.
+Lemma fold_left_nil' {A B} (f : A -> B -> A) a : fold_left f [] a = a.
+Proof. reflexivity. Qed.
+
 Lemma in_seq_lt i n : In i (seq 0 n) -> i < n.
 Proof. intros H. apply in_seq in H. lia. Qed.
 
@@ -197,18 +202,22 @@ Lemma fold_tf512 bl h : Forall (fun b => length b = 64) bl -> length h = 64 ->
   fold_left (tf512 S) bl (LA h) = LA (fold_left (f S p512) bl h)
   /\ length (fold_left (f S p512) bl h) = 64.
 Proof.
-  revert h; induction bl as [|b bl IH]; intros h Hbl Hh; cbn [fold_left]; [now split|].
-  inversion_clear Hbl as [|? ? Hb Hbl']. rewrite tf512_eq by assumption.
-  apply IH; [assumption|now apply f512_length].
+  revert h; induction bl as [|b bl IH]; intros h Hbl Hh.
+  - rewrite !fold_left_nil'. split; [reflexivity|exact Hh].
+  - rewrite !fold_left_cons'.
+    inversion_clear Hbl as [|? ? Hb Hbl']. rewrite tf512_eq by assumption.
+    apply IH; [assumption|now apply f512_length].
 Qed.
 
 Lemma fold_tf1024 bl h : Forall (fun b => length b = 128) bl -> length h = 128 ->
   fold_left (tf1024 S) bl (L1024 h) = L1024 (fold_left (f S p1024) bl h)
   /\ length (fold_left (f S p1024) bl h) = 128.
 Proof.
-  revert h; induction bl as [|b bl IH]; intros h Hbl Hh; cbn [fold_left]; [now split|].
-  inversion_clear Hbl as [|? ? Hb Hbl']. rewrite tf1024_eq by assumption.
-  apply IH; [assumption|now apply f1024_length].
+  revert h; induction bl as [|b bl IH]; intros h Hbl Hh.
+  - rewrite !fold_left_nil'. split; [reflexivity|exact Hh].
+  - rewrite !fold_left_cons'.
+    inversion_clear Hbl as [|? ? Hb Hbl']. rewrite tf1024_eq by assumption.
+    apply IH; [assumption|now apply f1024_length].
 Qed.
 
 End WithSbox.
